@@ -125,7 +125,7 @@ var meta = map[string]*propMeta{
 		EvalsAre: "simulated streams",
 	},
 	"C11": {
-		Level: "exploration", QuickRuns: 24000, ThoroughRuns: 600000,
+		Level: "exploration", QuickRuns: 16000, ThoroughRuns: 400000,
 		Rule: "one run = one instance (Serializer or Encoder+Decoder over private copies of the complete maps) driven through a seeded history of 0..30 calls {encode, encode of an unrepresentable value, WriteTo aborted half-way by a writer fault at a drawn Write index and kind, decode, decode of a cut/reset/damaged stream (possibly panicking; harness recovers), streaming writes / reads, Reset}, each with a different drawn value; then a probe {Encode/ToBytes, WriteTo, Decode/ToObject, ReadFrom} on the used instance and on a fresh one: bytes, canonical value (incl. dynamic types and pointer identity) and masked error must be identical. Around every call the value passed in, the bytes passed in and both maps are snapshotted and compared; results of earlier calls are re-compared after every later call. 30% of the runs instead enumerate EVERY abort point (every Write index x 9 kinds / every cut offset) of one value followed by a probe. evaluations = probe comparisons. Non-trivial = history non-empty or enumerating mode; distinct = distinct (history, draws) fingerprints.",
 		Assumptions: []string{"map iteration order inside writeMap is pinned by the instrumentation seam, so byte equality is meaningful", "error texts are compared with pointer values masked"},
 		Real: append([]string{"bufio.Reader, bytes.Buffer"}, commonReal...), Simulated: []string{"destination io.Writer (fault-injecting)", "source reader (cut / reset / damaged)", "map iteration order (seeded)", "logger (no-op)"},
